@@ -5,7 +5,7 @@
 set -u
 B=$(mktemp -d /tmp/bspline_baseline.XXXXXX)
 trap 'rm -rf "$B"' EXIT
-cmake -S /repo -B "$B" -G Ninja -DCMAKE_BUILD_TYPE=RelWithDebInfo -DCMAKE_CXX_FLAGS="-Wno-error" >"$B/conf.log" 2>&1 || { tail -20 "$B/conf.log"; exit 2; }
+cmake -S "${VERIF_REPO:-/repo}" -B "$B" -G Ninja -DCMAKE_BUILD_TYPE=RelWithDebInfo -DCMAKE_CXX_FLAGS="-Wno-error" >"$B/conf.log" 2>&1 || { tail -20 "$B/conf.log"; exit 2; }
 cmake --build "$B" -j"$(nproc)" >"$B/build.log" 2>&1 || { tail -40 "$B/build.log"; exit 2; }
 "$B/tests/test" --report_level=detailed --log_level=test_suite 2>&1 | grep -E 'Leaving test case|error|failed|passed' | sed -e 's/^.*Leaving test case/PASS?/' | tail -60
 "$B/tests/test" >/dev/null 2>&1
